@@ -120,6 +120,18 @@ func (s *subsetter) SubsetCMap(c cmap.Subtable) cmap.Subtable {
 			res[key] = newGid
 		}
 		return res
+	case *cmap.Format0:
+		// The new glyph indices may not fit into a byte: the codes are
+		// kept in a subtable which can hold any glyph index.
+		res := cmap.Format4{}
+		for code, oldGid := range c.Data {
+			newGid, ok := s.newGid[glyph.ID(oldGid)]
+			if !ok || oldGid == 0 {
+				continue
+			}
+			res[uint16(code)] = newGid
+		}
+		return res
 	default:
 		panic(fmt.Sprintf("sfnt: unsupported cmap format %T", c))
 	}
